@@ -14,8 +14,14 @@ type csvCfg struct {
 }
 
 func c09Config() csvCfg {
-	seps := [][]rune{{','}, {';', '\t'}, {',', ';'}}[vChoice("cfg.seps", 3)]
-	quotes := [][]rune{{'"'}, {'"', '\''}, {'«'}}[vChoice("cfg.quotes", 3)]
+	si, qi := 0, 0
+	if cfg := vParam("CFG"); cfg >= 0 {
+		si, qi = cfg%3, (cfg/3)%3 // a fixed separator / quote configuration (all four row endings)
+	} else {
+		si, qi = vChoice("cfg.seps", 3), vChoice("cfg.quotes", 3)
+	}
+	seps := [][]rune{{','}, {';', '\t'}, {',', ';'}}[si]
+	quotes := [][]rune{{'"'}, {'"', '\''}, {'«'}}[qi]
 	eol := [][]rune{{'\n'}, {'\r'}, {'\r', '\n'}, {'\n', '\r'}}[vChoice("cfg.eol", 4)]
 	return csvCfg{seps, quotes, eol}
 }
@@ -55,7 +61,7 @@ func c09Write(cfg csvCfg, field []rune) []rune {
 // H_C09_roundtrip
 func H_C09_roundtrip() {
 	cfg := c09Config()
-	shape := [][2]int{{1, 1}, {1, 2}, {2, 1}, {2, 2}, {1, 3}}[vParam("SHAPE")]
+	shape := [][2]int{{1, 1}, {1, 2}, {2, 1}, {2, 2}, {1, 3}, {3, 1}}[vParam("SHAPE")]
 	rows, cols := shape[0], shape[1]
 	F := vParam("F")
 	table := make([][][]rune, rows)
